@@ -225,7 +225,8 @@ OnRecv0(mm, f) ==
          m1 == Put(mm, f.sid, r1)
          m2 == IF is4 THEN [m1 EXCEPT !.obs.r4xx = @ \cup {f.sid}] ELSE m1
          c1 == FlagIf(m2, r.rh > 0, "C01:response-headers-twice")
-         c2 == FlagIf(c1, f.hbad, "C01:response-block-undecodable")
+         c2a == FlagIf(c1, f.hbad, "C01:response-block-undecodable")
+         c2 == FlagIf(c2a, f.tsover, "C18:header-table-size-limit-not-obeyed (the encoder's table is larger than the limit it acknowledged)")
          c3 == FlagIf(c2, f.eh /\ ~f.hbad /\ ~WellFormedResponse(f.fields), "C01:response-malformed")
          c4 == FlagIf(c3, f.eh /\ ~f.hbad /\ ~is4 /\ st # DigitsOf(r.resp.status), "C01:status-differs")
          c5 == FlagIf(c4, f.eh /\ ~f.hbad /\ ~is4 /\ ~SubFields(r.resp.hdrs, Regular(f.fields)), "C01:response-field-lost")
